@@ -193,6 +193,20 @@ def coq_property(prop, timeout=900):
     return {"ok": rc == 0, "log": out, "theorems": ths}
 
 
+def coq_chk(prop, timeout=2400):
+    """coqchk -o on the compiled property file: re-checks it and all its dependencies with the independent checker and
+    reports the axioms they rely on."""
+    with Lock("coq"):
+        rc, out = run(["coqchk", "-silent", "-o"] + COQ_Q + ["S2SProp." + prop], cwd=COQ, timeout=timeout)
+    if rc == 124 or "TIMEOUT" in out[-200:]:
+        return {"ok": False, "timeout": True, "axioms": None, "log": out}
+    m = re.search(r"\* Axioms:\s*(.*?)\n\s*\n", out, re.S)
+    axioms = " ".join(m.group(1).split()) if m else None
+    clean = all(re.search(r"\* %s:\s*<none>" % re.escape(k), out) for k in
+                ("Constants/Inductives relying on type-in-type", "Constants/Inductives relying on unsafe (co)fixpoints", "Inductives whose positivity is assumed"))
+    return {"ok": rc == 0 and axioms == "<none>" and clean, "timeout": False, "axioms": axioms, "log": out}
+
+
 # ----------------------------------------------------------------------------- OCaml
 def ocaml_build(name, extract_v, model_ml, driver_ml, timeout=600):
     """Extract (coqc on extraction/<extract_v>) and build driver <name> in .work/ml.
@@ -428,6 +442,15 @@ def coq_stage(ck, prop, targets):
     if not pr["theorems"]:
         ck.obligation("property file has theorems", False, "none found")
         allok = False
+    if getattr(ck, "tier", "quick") == "thorough" and pr["ok"]:
+        res = coq_chk(prop)
+        if res["timeout"]:
+            ck.log("coqchk on %s did not finish within its time limit (recorded, not counted)" % prop)
+            ck.notes.append("coqchk S2SProp.%s: not finished within the time limit" % prop)
+        else:
+            ck.obligation("coqchk S2SProp.%s (independent re-check of the compiled proofs and everything they depend on): axioms %s" % (prop, res["axioms"] or "?"),
+                          res["ok"], res["log"][-2000:])
+            allok = allok and res["ok"]
     return allok
 
 
